@@ -19,3 +19,5 @@ open IrVerif.Serde
 #print axioms C02_graph
 #print axioms C02_function
 #print axioms C02_model
+#print axioms C02_model_norm
+#print axioms C02_norm_idempotent
